@@ -70,16 +70,8 @@ theorem quad_inverse_correct {cfg : QuadCfg F} {B : FieldD P F} (hB : BaseLawful
     zero and `inverse` returns `None` on it. -/
 theorem quad_inverse_square_nonresidue {cfg : QuadCfg F} {B : FieldD P F} (hB : BaseLawful B)
     (hc : QuadLawful cfg) (x : F) (hx : x * x = cfg.nonresidue) :
-    (⟨x, 1⟩ : Quad F) ≠ 0 ∧ Quad.inverse cfg B ⟨x, 1⟩ = .ok none := by
-  have hn : Quad.norm cfg B (⟨x, 1⟩ : Quad F) = 0 := by
-    rw [Quad.norm_eq hB hc, ← hx]; ring
-  refine ⟨fun h => one_ne_zero (congrArg Quad.c1 h), ?_⟩
-  unfold Quad.inverse
-  have h1 : ¬ ((⟨x, 1⟩ : Quad F).c0 = 0 ∧ (⟨x, 1⟩ : Quad F).c1 = 0) := fun h => one_ne_zero h.2
-  rw [if_neg h1]
-  show obind (B.inverse (Quad.norm cfg B ⟨x, 1⟩)) _ = _
-  rw [hn, hB.inverse, if_pos rfl]
-  rfl
+    (⟨x, 1⟩ : Quad F) ≠ 0 ∧ Quad.inverse cfg B ⟨x, 1⟩ = .ok none :=
+  Quad.inverse_none_of_square hB hc x hx
 
 /-- `inverse` never panics -/
 theorem quad_inverse_no_panic {cfg : QuadCfg F} {B : FieldD P F} (hB : BaseLawful B) (a : Quad F) :
@@ -121,17 +113,8 @@ theorem cubic_inverse_zero {cfg : CubicCfg F} {B : FieldD P F} :
     element `(-x, 1, 0)` is non-zero with vanishing norm and `inverse` panics on it. -/
 theorem cubic_inverse_panics_of_cube {cfg : CubicCfg F} {B : FieldD P F} (hB : BaseLawful B)
     (hc : CubicLawful cfg) (x : F) (hx : x ^ 3 = cfg.nonresidue) :
-    Cubic.inverse cfg B (⟨-x, 1, 0⟩ : Cubic F) = .panic := by
-  unfold Cubic.inverse
-  have h1 : ¬ ((⟨-x, 1, 0⟩ : Cubic F).c0 = 0 ∧ (⟨-x, 1, 0⟩ : Cubic F).c1 = 0 ∧
-      (⟨-x, 1, 0⟩ : Cubic F).c2 = 0) := fun h => one_ne_zero h.2.1
-  rw [if_neg h1]
-  simp only [hc.mulNr, hB.square]
-  have e : -x * (-x * -x - cfg.nonresidue * (1 * 0)) +
-      cfg.nonresidue * (0 * (cfg.nonresidue * (0 * 0) - -x * 1) + 1 * (1 * 1 - -x * 0)) = 0 := by
-    rw [← hx]; ring
-  rw [e, hB.inverse, if_pos rfl]
-  rfl
+    Cubic.inverse cfg B (⟨-x, 1, 0⟩ : Cubic F) = .panic :=
+  Cubic.inverse_panic_of_cube hB hc x hx
 
 example : ∀ x : ZMod 7, x ^ 3 ≠ c7cub.wrap.nonresidue := noncube7
 example : Cubic.inverse c7cub.wrap B7 (⟨1, 2, 3⟩ : Cubic (ZMod 7)) = .ok (some ⟨1, 1, 2⟩) := by
@@ -242,17 +225,8 @@ theorem fp3_frob_pow [Fintype F] (p : ℕ) [Fact p.Prime] [CharP F p] (hp3 : p %
 /-- a truncated table makes `frobenius_map` panic for some power (the slice index) -/
 theorem fp2_frob_panics_of_short_table (c : Fp2Cfg F) (B : FieldD P F)
     (hB : ∀ x k, B.frob x k ≠ .panic) (hlen : c.frobC1.length < 2) (a : Quad F) :
-    Quad.frob c.wrap B a c.frobC1.length = .panic := by
-  unfold Quad.frob
-  cases h0 : B.frob a.c0 c.frobC1.length with
-  | panic => exact absurd h0 (hB _ _)
-  | ok x0 =>
-    cases h1 : B.frob a.c1 c.frobC1.length with
-    | panic => exact absurd h1 (hB _ _)
-    | ok x1 =>
-      show obind (obind (index c.frobC1 (c.frobC1.length % 2)) _) _ = _
-      rw [index_mod_panic _ 2 hlen]
-      rfl
+    Quad.frob c.wrap B a c.frobC1.length = .panic :=
+  Fp2.frob_panic_of_short_table c B hB hlen a
 
 example : c7neg.frobC1.length = 2 ∧
     ∀ i, i < 2 → c7neg.frobC1.getD i 0 = c7neg.nonresidue ^ ((7 ^ i - 1) / 2) := by
@@ -265,6 +239,69 @@ example : c7cub.frobC1.length = 3 ∧ c7cub.frobC2.length = 3 ∧
     (∀ i, i < 3 → c7cub.frobC2.getD i 0 = c7cub.nonresidue ^ ((2 * 7 ^ i - 2) / 3)) := by
   refine ⟨rfl, rfl, fun i hi => ?_, fun i hi => ?_⟩ <;> interval_cases i <;> decide
 example : Cubic.frob c7cub.wrap B7 (⟨1, 2, 3⟩ : Cubic (ZMod 7)) 1 = .ok ⟨1, 4, 5⟩ := by decide
+
+/-- the Frobenius hooks of the upper wrappers multiply by the (embedded) table entry
+    `C1[k % DEGREE]`; none of them panics when the table has `DEGREE` entries: `Fp4` … -/
+theorem fp4_frob_hook (c2 : Fp2Cfg F) {B : FieldD P F} (hB : BaseLawful B)
+    (hc : QuadLawful c2.wrap) (nr : Quad F) (tbl : List F) (h : tbl.length = 4)
+    (fe : Quad F) (k : ℕ) :
+    letI := Quad.commRing c2.wrap B hB hc
+    (Fp4.cfg c2 nr tbl).mulFrobCoeff fe k = .ok (fe * (⟨tbl.getD (k % 4) 0, 0⟩ : Quad F)) :=
+  Fp4.cfg_mulFrobCoeff c2 hB hc nr tbl h fe k
+
+/-- … `Fp6` (2-over-3) … -/
+theorem fp6a_frob_hook (c3 : Fp3Cfg F) (hc : CubicLawful c3.wrap) (nr : Cubic F)
+    (tbl : List F) (h : tbl.length = 6) (fe : Cubic F) (k : ℕ) :
+    letI := Cubic.commRing c3.wrap hc
+    (Fp6a.cfg c3 nr tbl).mulFrobCoeff fe k = .ok (fe * (⟨tbl.getD (k % 6) 0, 0, 0⟩ : Cubic F)) :=
+  Fp6a.cfg_mulFrobCoeff c3 hc nr tbl h fe k
+
+/-- … `Fp6` (3-over-2) … -/
+theorem fp6b_frob_hook (c : Fp6bCfg F) (h1 : c.frobC1.length = 6) (h2 : c.frobC2.length = 6)
+    (x y : F) (k : ℕ) :
+    c.wrap.mulFrobCoeff x y k =
+      .ok (x * c.frobC1.getD (k % 6) 0, y * c.frobC2.getD (k % 6) 0) :=
+  Fp6bCfg.wrap_mulFrobCoeff c h1 h2 x y k
+
+/-- … and `Fp12`. Together with `quad_frob_pow` / `cubic_frob_pow` (whose base-Frobenius hypothesis is
+    the conclusion for the layer below) this covers every layer of the towers. -/
+theorem fp12_frob_hook (c6 : Fp6bCfg F) (hc : CubicLawful c6.wrap) (nr : Cubic F)
+    (tbl : List F) (h : tbl.length = 12) (fe : Cubic F) (k : ℕ) :
+    letI := Cubic.commRing c6.wrap hc
+    (Fp12.cfg c6 nr tbl).mulFrobCoeff fe k = .ok (fe * (⟨tbl.getD (k % 12) 0, 0, 0⟩ : Cubic F)) :=
+  Fp12.cfg_mulFrobCoeff c6 hc nr tbl h fe k
+
+/-- the two-layer composition spelled out for `Fp4 = Fp2[Y]/(Y² - X)` over the prime field -/
+theorem fp4_frob_pow [Fintype F] (p : ℕ) [Fact p.Prime] [CharP F p] (hp2 : p % 2 = 1)
+    (hcard : Fintype.card F = p) (c2 : Fp2Cfg F) (hc2 : QuadLawful c2.wrap)
+    (hnr2 : ∀ x : F, x * x ≠ c2.wrap.nonresidue)
+    (hlen2 : c2.frobC1.length = 2)
+    (htbl2 : ∀ i, i < 2 → c2.frobC1.getD i 0 = c2.nonresidue ^ ((p ^ i - 1) / 2))
+    (tbl4 : List F) (hlen4 : tbl4.length = 4)
+    (hnr4 : letI := Quad.field c2.wrap (primeD F) primeD_lawful hc2 hnr2
+      ∀ x : Quad F, x * x ≠ ⟨0, 1⟩)
+    (htbl4 : letI := Quad.field c2.wrap (primeD F) primeD_lawful hc2 hnr2
+      ∀ i, i < 4 → (⟨tbl4.getD i 0, 0⟩ : Quad F) = (⟨0, 1⟩ : Quad F) ^ ((p ^ i - 1) / 2))
+    (a : Quad (Quad F)) (k : ℕ) :
+    letI := Quad.field c2.wrap (primeD F) primeD_lawful hc2 hnr2
+    letI := Quad.commRing (Fp4.cfg c2 ⟨0, 1⟩ tbl4) (Quad.fieldD c2.wrap (primeD F))
+      (Quad.fieldD_baseLawful primeD_lawful hc2 hnr2) (Fp4.cfg_lawful c2 primeD_lawful hc2 hnr2 tbl4)
+    Quad.frob (Fp4.cfg c2 ⟨0, 1⟩ tbl4) (Quad.fieldD c2.wrap (primeD F)) a k = .ok (a ^ p ^ k) :=
+  Fp4.frob_eq_pow p hp2 hcard c2 hc2 hnr2 hlen2 htbl2 tbl4 hlen4 hnr4 htbl4 a k
+
+/-- non-vacuity of `fp4_frob_pow` over `F₅` (`X² = 2`, `Y² = X`; over `F₇` the element `X` is always
+    a square of `F₄₉`) -/
+example :
+    letI := Quad.field c5two.wrap (primeD (ZMod 5)) primeD_lawful c5two_lawful nonsq5
+    (∀ x : Quad (ZMod 5), x * x ≠ ⟨0, 1⟩) ∧
+    ∀ i, i < 4 → (⟨tbl5.getD i 0, 0⟩ : Quad (ZMod 5)) = (⟨0, 1⟩ : Quad (ZMod 5)) ^ ((5 ^ i - 1) / 2) :=
+  ⟨nonsq5_4, tbl5_ok⟩
+example : c5two.frobC1.length = 2 ∧
+    ∀ i, i < 2 → c5two.frobC1.getD i 0 = c5two.nonresidue ^ ((5 ^ i - 1) / 2) := by
+  refine ⟨rfl, fun i hi => ?_⟩
+  interval_cases i <;> decide
+example : Quad.frob (Fp4.cfg c5two ⟨0, 1⟩ tbl5) (Quad.fieldD c5two.wrap (primeD (ZMod 5)))
+    (⟨⟨1, 2⟩, ⟨3, 4⟩⟩ : Quad (Quad (ZMod 5))) 1 = .ok ⟨⟨1, 3⟩, ⟨1, 2⟩⟩ := by decide
 
 /-! ### 17. the cubic norm -/
 
@@ -317,17 +354,13 @@ theorem cyc_inverse_unitary_inv {cfg : QuadCfg F} {B : FieldD P F} (hB : BaseLaw
     (hc : QuadLawful cfg) (hnr : ∀ x : F, x * x ≠ cfg.nonresidue) (D : FieldD P (Quad F))
     (cs : Option (Quad F → Quad F)) (a : Quad F) (hn : Quad.norm cfg B a = 1) :
     letI := Quad.field cfg B hB hc hnr
-    (CycD.conj D cs).cycInverse a = .ok (some a⁻¹) := by
-  letI := Quad.field cfg B hB hc hnr
-  rw [cycInverse_conj hB hc D cs a hn]
-  congr 2
-  exact eq_inv_of_mul_eq_one_right (Quad.mul_conj_of_norm_one hB hc a hn)
+    (CycD.conj D cs).cycInverse a = .ok (some a⁻¹) :=
+  cycInverse_conj_inv hB hc hnr D cs a hn
 
 /-- `cyclotomic_inverse 0 = None` -/
 theorem cyc_inverse_zero (D : FieldD P (Quad F)) (cs : Option (Quad F → Quad F)) :
-    (CycD.conj D cs).cycInverse (0 : Quad F) = .ok none := by
-  show (if (0 : Quad F).c0 = 0 ∧ (0 : Quad F).c1 = 0 then _ else _) = _
-  rw [if_pos ⟨rfl, rfl⟩]
+    (CycD.conj D cs).cycInverse (0 : Quad F) = .ok none :=
+  cycInverse_conj_zero D cs
 
 example : Quad.norm c7neg.wrap B7 (⟨2, 5⟩ : Quad (ZMod 7)) = 1 := by decide
 
@@ -399,15 +432,8 @@ theorem fp12_cyc_square_granger_scott {G : Type} [Field G] [DecidableEq G]
     letI := Cubic.field c6.wrap hc hnc
     Fp12.cycSquare c6 B2.double
         (Quad.fieldD (Fp12.cfg c6 ⟨0, 1, 0⟩ tbl) (Cubic.fieldD c6.wrap B2)).square limbs s =
-      Quad.mul (Fp12.cfg c6 ⟨0, 1, 0⟩ tbl) (Cubic.fieldD c6.wrap B2) s s := by
-  letI := Cubic.field c6.wrap hc hnc
-  cases hl : charSquareMod6IsOne limbs with
-  | true =>
-    rw [Fp12.cycSquare_eq_mul12 c6 hc B2.double hB2.double _ limbs hl s hs,
-      Fp12.mul_eq_mul12 c6 hc hnc tbl B2 hB2]
-  | false =>
-    rw [Fp12.cycSquare_fallback c6 _ _ limbs hl]
-    exact Quad.square_eq (Cubic.fieldD_baseLawful hB2 hc hnc) (Fp12.cfg_lawful c6 hc hnc tbl) s
+      Quad.mul (Fp12.cfg c6 ⟨0, 1, 0⟩ tbl) (Cubic.fieldD c6.wrap B2) s s :=
+  Fp12.cycSquare_eq_mul c6 hc hnc tbl B2 hB2 limbs s hs
 
 /-- the relations hold for `1` and are closed under product and conjugation (= inversion on
     unitary elements): they cut out a subgroup -/
@@ -433,6 +459,77 @@ theorem fp12_cyc_exp {G : Type} [Field G] [DecidableEq G]
         (Quad.fieldD (Fp12.cfg c6 ⟨0, 1, 0⟩ tbl) (Cubic.fieldD c6.wrap B2)).square limbs))) s e
       = .ok (s ^ value e) :=
   Fp12.cycExp_spec c6 hc hnc tbl B2 hB2 limbs s hn hs e he
+
+/-- **membership in the cyclotomic subgroup ⇒ relations.**  Over `G = F_q` with `q ≡ 1 (mod 6)`
+    (for `G = Fp2`, `q = p²`: exactly the guard `characteristic_square_mod_6_is_one`) and `ξ` neither a
+    square nor a cube, every `s ∈ Fp12` with `s^(q² - q + 1) = 1` (`q² - q + 1 = Φ₁₂(p)`) is unitary
+    and satisfies the Granger–Scott relations. -/
+theorem gs_rel_of_cyclotomic {G : Type} [Field G] [DecidableEq G] [Fintype G] (p : ℕ)
+    [Fact p.Prime] [CharP G p] (hq6 : Fintype.card G % 6 = 1) (c6 : Fp6bCfg G)
+    (hc : CubicLawful c6.wrap) (hnr : ∀ x : G, x * x ≠ c6.wrap.nonresidue)
+    (hnc : ∀ x : G, x ^ 3 ≠ c6.wrap.nonresidue) (tbl : List G)
+    (B2 : FieldD P G) (hB2 : BaseLawful B2) (s : Quad (Cubic G))
+    (hmem : letI := Cubic.field c6.wrap hc hnc
+      letI := Quad.commRing (Fp12.cfg c6 ⟨0, 1, 0⟩ tbl) (Cubic.fieldD c6.wrap B2)
+        (Cubic.fieldD_baseLawful hB2 hc hnc) (Fp12.cfg_lawful c6 hc hnc tbl)
+      s ^ (Fintype.card G ^ 2 - Fintype.card G + 1) = 1) :
+    letI := Cubic.field c6.wrap hc hnc
+    Quad.norm (Fp12.cfg c6 ⟨0, 1, 0⟩ tbl) (Cubic.fieldD c6.wrap B2) s = 1 ∧
+    GSRel c6.wrap.nonresidue s :=
+  Fp12.of_cyclotomic p hq6 c6 hc hnr hnc tbl B2 hB2 s hmem
+
+/-- **Granger–Scott, group-theoretic form**: `cyclotomic_square(s) = s²` for every `s` with
+    `s^(q² - q + 1) = 1`. -/
+theorem fp12_cyc_square_of_cyclotomic {G : Type} [Field G] [DecidableEq G] [Fintype G] (p : ℕ)
+    [Fact p.Prime] [CharP G p] (hq6 : Fintype.card G % 6 = 1) (c6 : Fp6bCfg G)
+    (hc : CubicLawful c6.wrap) (hnr : ∀ x : G, x * x ≠ c6.wrap.nonresidue)
+    (hnc : ∀ x : G, x ^ 3 ≠ c6.wrap.nonresidue) (tbl : List G)
+    (B2 : FieldD P G) (hB2 : BaseLawful B2) (limbs : List Nat) (s : Quad (Cubic G))
+    (hmem : letI := Cubic.field c6.wrap hc hnc
+      letI := Quad.commRing (Fp12.cfg c6 ⟨0, 1, 0⟩ tbl) (Cubic.fieldD c6.wrap B2)
+        (Cubic.fieldD_baseLawful hB2 hc hnc) (Fp12.cfg_lawful c6 hc hnc tbl)
+      s ^ (Fintype.card G ^ 2 - Fintype.card G + 1) = 1) :
+    letI := Cubic.field c6.wrap hc hnc
+    Fp12.cycSquare c6 B2.double
+        (Quad.fieldD (Fp12.cfg c6 ⟨0, 1, 0⟩ tbl) (Cubic.fieldD c6.wrap B2)).square limbs s =
+      Quad.mul (Fp12.cfg c6 ⟨0, 1, 0⟩ tbl) (Cubic.fieldD c6.wrap B2) s s :=
+  fp12_cyc_square_granger_scott c6 hc hnc tbl B2 hB2 limbs s
+    (Fp12.of_cyclotomic p hq6 c6 hc hnr hnc tbl B2 hB2 s hmem).2
+
+/-- `cyclotomic_exp` of `Fp12` on the cyclotomic subgroup -/
+theorem fp12_cyc_exp_of_cyclotomic {G : Type} [Field G] [DecidableEq G] [Fintype G] (p : ℕ)
+    [Fact p.Prime] [CharP G p] (hq6 : Fintype.card G % 6 = 1) (c6 : Fp6bCfg G)
+    (hc : CubicLawful c6.wrap) (hnr : ∀ x : G, x * x ≠ c6.wrap.nonresidue)
+    (hnc : ∀ x : G, x ^ 3 ≠ c6.wrap.nonresidue) (tbl : List G)
+    (B2 : FieldD P G) (hB2 : BaseLawful B2) (limbs : List Nat) (s : Quad (Cubic G))
+    (hmem : letI := Cubic.field c6.wrap hc hnc
+      letI := Quad.commRing (Fp12.cfg c6 ⟨0, 1, 0⟩ tbl) (Cubic.fieldD c6.wrap B2)
+        (Cubic.fieldD_baseLawful hB2 hc hnc) (Fp12.cfg_lawful c6 hc hnc tbl)
+      s ^ (Fintype.card G ^ 2 - Fintype.card G + 1) = 1)
+    (e : List Nat) (he : WF e) :
+    letI := Cubic.field c6.wrap hc hnc
+    letI := Quad.commRing (Fp12.cfg c6 ⟨0, 1, 0⟩ tbl) (Cubic.fieldD c6.wrap B2)
+      (Cubic.fieldD_baseLawful hB2 hc hnc) (Fp12.cfg_lawful c6 hc hnc tbl)
+    cycExp (CycD.conj (Quad.fieldD (Fp12.cfg c6 ⟨0, 1, 0⟩ tbl) (Cubic.fieldD c6.wrap B2))
+      (some (Fp12.cycSquare c6 B2.double
+        (Quad.fieldD (Fp12.cfg c6 ⟨0, 1, 0⟩ tbl) (Cubic.fieldD c6.wrap B2)).square limbs))) s e
+      = .ok (s ^ value e) :=
+  Fp12.cycExp_of_cyclotomic p hq6 c6 hc hnr hnc tbl B2 hB2 limbs s hmem e he
+
+/-- the hypotheses are satisfiable: `G = F₇` (`7 ≡ 1 mod 6`), `ξ = 3` (neither a square nor a cube),
+    `s = g^((7⁶-1)/43)` has `s^43 = 1`, `43 = 7² - 7 + 1` -/
+example : Fintype.card (ZMod 7) % 6 = 1 := by rw [ZMod.card]
+example : (∀ x : ZMod 7, x * x ≠ c7six.wrap.nonresidue) ∧ (∀ x : ZMod 7, x ^ 3 ≠ c7six.wrap.nonresidue) :=
+  ⟨nonsq7six, noncube7six⟩
+example :
+    letI := Cubic.field c7six.wrap c7six_lawful noncube7six
+    letI := Quad.commRing (Fp12.cfg c7six ⟨0, 1, 0⟩ []) (Cubic.fieldD c7six.wrap B7)
+      (Cubic.fieldD_baseLawful B7_lawful c7six_lawful noncube7six)
+      (Fp12.cfg_lawful c7six c7six_lawful noncube7six [])
+    (⟨⟨0, 4, 5⟩, ⟨6, 5, 2⟩⟩ : Quad (Cubic (ZMod 7))) ^
+      (Fintype.card (ZMod 7) ^ 2 - Fintype.card (ZMod 7) + 1) = 1 := by
+  rw [ZMod.card]
+  decide +kernel
 
 /-- non-vacuity over `G = F₇`, `ξ = 3`: `s = g^((7⁶-1)/43)` is in the subgroup of order
     `Φ₆(7) = 43`, satisfies the relations and is unitary … -/
